@@ -109,7 +109,7 @@ def exhaustive(ctx, name, budget, segmaxl):
 def random_traces(ctx, tier, seed):
     rng = random.Random(seed * 977 + 5)
     quick = tier == "quick"
-    n_hist, steps, ntarget, lmax = (3, 12, 10, 8) if quick else (12, 40, 40, 10)
+    n_hist, steps, ntarget, lmax = (3, 12, 10, 10) if quick else (12, 40, 40, 10)
     total = ntargets = 0
     stats, samples = [], []
     for name in ("UnitSquare", "PiSquare", "LShape"):
@@ -133,7 +133,7 @@ def random_traces(ctx, tier, seed):
                 continue
             for t in range(ntarget):
                 cells = ql.project(mesh, dom)
-                l = rng.randrange(0, lmax + 1)
+                l = rng.randrange(0, lmax + 1) if t >= 2 else lmax - t      # the finest admissible levels (10, 9) in every history
                 segs = ql.all_segments(ql.Domain(name, 12), 0)
                 base = rng.choice(segs)
                 g = dom.U // 2 ** l
